@@ -1,8 +1,8 @@
-\* every pair of well-formed indexes over keys {a, a/x}, one file meta, two file hashes, 12 option sets
+\* every pair of well-formed indexes over keys {a, a/x, a/y}, one file meta, two file hashes, 12 option sets
 SPECIFICATION Spec
 CONSTANTS
-    Keys <- KeysQ
-    Parent <- ParentQ
+    Keys <- KeysM
+    Parent <- ParentM
     FileMetas = {"f1"}
     FileHashes = {"h1", "h2"}
     Root = ""
